@@ -196,6 +196,7 @@ Definition py_truediv (a b : pyval) : pyres :=
   match as_num a, as_num b with
   | NInt x, NInt y =>
       if y =? 0 then PErr ZeroDiv
+      else if x =? 0 then POk (VFloat (S754_zero (y <? 0)))          (* 0 / -5 is -0.0 *)
       else let r := f_of_ratio (if y <? 0 then - x else x) (Z.abs y) in
            if f_is_inf r then PErr Overflow else POk (VFloat r)
   | x, y =>
